@@ -95,6 +95,8 @@ fn parse_fastq_real(bytes: &[u8], cap: usize) -> Result<Vec<(Vec<u8>, Vec<u8>, V
 /// the same for both.
 pub struct Sink {
     pub out: Vec<u8>,
+    /// accepts this many bytes, then every call fails (a full disk, a closed pipe)
+    fail_after: Option<usize>,
     odd: Option<(Rng, usize)>,
     pub short_writes: usize,
     pub vectored_calls: usize,
@@ -102,15 +104,35 @@ pub struct Sink {
 
 impl Sink {
     pub fn plain() -> Sink {
-        Sink { out: vec![], odd: None, short_writes: 0, vectored_calls: 0 }
+        Sink { out: vec![], fail_after: None, odd: None, short_writes: 0, vectored_calls: 0 }
     }
     pub fn odd(seed: u64, max: usize) -> Sink {
-        Sink { out: vec![], odd: Some((Rng::new(seed), max.max(1))), short_writes: 0, vectored_calls: 0 }
+        Sink { out: vec![], fail_after: None, odd: Some((Rng::new(seed), max.max(1))), short_writes: 0, vectored_calls: 0 }
+    }
+    pub fn failing(after: usize) -> Sink {
+        Sink { out: vec![], fail_after: Some(after), odd: None, short_writes: 0, vectored_calls: 0 }
+    }
+    fn fail(&mut self, want: usize) -> Option<std::io::Result<usize>> {
+        let left = self.fail_after?;
+        if left == 0 {
+            return Some(Err(std::io::Error::new(std::io::ErrorKind::Other, "verif-write-failure")));
+        }
+        let n = left.min(want);
+        self.fail_after = Some(left - n);
+        Some(Ok(n))
     }
 }
 
 impl std::io::Write for Sink {
     fn write(&mut self, buf: &[u8]) -> std::io::Result<usize> {
+        if !buf.is_empty() {
+            if let Some(r) = self.fail(buf.len()) {
+                if let Ok(n) = r {
+                    self.out.extend_from_slice(&buf[..n]);
+                }
+                return r;
+            }
+        }
         match &mut self.odd {
             None => {
                 self.out.extend_from_slice(buf);
@@ -134,6 +156,13 @@ impl std::io::Write for Sink {
     }
     fn write_vectored(&mut self, bufs: &[std::io::IoSlice<'_>]) -> std::io::Result<usize> {
         self.vectored_calls += 1;
+        if self.fail_after.is_some() {
+            // the first non-empty slice, like the default implementation
+            return match bufs.iter().find(|b| !b.is_empty()) {
+                Some(b) => std::io::Write::write(self, b),
+                None => Ok(0),
+            };
+        }
         match &mut self.odd {
             None => {
                 let mut t = 0;
@@ -316,6 +345,13 @@ pub fn c10(ctx: &Ctx, rep: &mut Report) {
                 }
                 rep.evaluations += 1;
                 rep.map("entry_point_calls", name);
+                if rng.chance(1, 20) {
+                    // an attempt that fails in the writer (full disk) comes first: it must leave nothing behind
+                    // that shows in the next, successful call
+                    let mut bad = Sink::failing(rng.below(head.len() + seq.len() + 2));
+                    let _ = guarded(|| wfn(&mut bad, &head, &seq, width, &ch));
+                    rep.count("calls_preceded_by_a_failed_write");
+                }
                 let mut sink = Sink::plain();
                 let res = guarded(|| wfn(&mut sink, &head, &seq, width, &ch));
                 let out = std::mem::take(&mut sink.out);
@@ -530,6 +566,24 @@ pub fn c11(ctx: &Ctx, rep: &mut Report) {
                 let seq: Vec<u8> = (0..n).map(|_| *rng.pick(b"ACGTN@+> ")).collect();
                 let qual: Vec<u8> = (0..n).map(|_| b'!' + rng.below(90) as u8).collect();
                 let which = rng.below(4);
+                if rng.chance(1, 20) {
+                    // the same call into a writer that fails after some bytes comes first
+                    let mut bad = Sink::failing(rng.below(head.len() + 2 * seq.len() + 6));
+                    let _ = guarded(|| match which {
+                        0 | 3 => fastq::write_to(&mut bad, &head, &seq, &qual),
+                        1 => {
+                            let (id, d) = id_desc(&head);
+                            fastq::write_parts(&mut bad, id, d, &seq, &qual)
+                        }
+                        _ => fastq::OwnedRecord {
+                            head: head.clone(),
+                            seq: seq.clone(),
+                            qual: qual.clone(),
+                        }
+                        .write(&mut bad),
+                    });
+                    rep.count("calls_preceded_by_a_failed_write");
+                }
                 let res = guarded(|| match which {
                     0 => fastq::write_to(&mut out, &head, &seq, &qual),
                     1 => {
